@@ -34,12 +34,13 @@ EXPLANATION = (
     "short streams or in the thorough tier, every 3-way) segmentation, with all instance attributes threaded from one dataReceived "
     "call to the next (pause/resume, raw/line mode switches and setLineMode(extra) included); the event trace up to the first close "
     "request must equal the whole-stream trace and an independent reference framing. Pause/resume from inside the handler (named by the "
-    "statement): in the same model the first message's handler calls pauseProducing() and resumeProducing() - at once (LineReceiver) or after "
-    "the delivery (LineReceiver, IntNStringReceiver) - and the messages must be those of plain sequential delivery; LineReceiver must also "
+    "statement): in the same model the first message's handler calls pauseProducing() and resumeProducing() - at once or after the "
+    "delivery (LineReceiver, IntNStringReceiver) - and the messages must be those of plain sequential delivery; LineReceiver must also "
     "survive a handler that calls dataReceived itself (_busyReceiving). Structurally, every receiver has consumed a message (offset / buffer / "
     "state) before the call-out that hands it out (intn/offset-advanced-before-callout, netstring/state-consumed-before-callout one helper "
     "level deep, the LineReceiver split/swap rules). Evaluated but only reported as notes, being outside the statement or not holding today: "
-    "handlers that call dataReceived or raise on the other receivers, and IntNStringReceiver with resumeProducing() from inside the handler. "
+    "handlers that call dataReceived or raise on the other receivers. IntNStringReceiver with pauseProducing() + immediate resumeProducing() "
+    "inside the handler duplicates messages today (known finding F16p, armed as intn/pause-resume-inside-handler). "
     "Not decided: invariance for all streams "
     "(only the sample streams are enumerated)."
 )
@@ -970,7 +971,8 @@ def _reentrancy(ctx):
     mod = ctx.mod(B)
     armed = {("line", "reenter"): "line/exactly-once-under-reentrancy",
              ("line", "pause-resume-now"): "line/pause-resume-inside-handler", ("line", "pause-resume-later"): "line/pause-resume-inside-handler",
-             ("intn", "pause-resume-later"): "intn/pause-inside-handler-resume-later"}
+             ("intn", "pause-resume-later"): "intn/pause-inside-handler-resume-later",
+             ("intn", "pause-resume-now"): "intn/pause-resume-inside-handler"}     # fails today: finding F16p
     describe = {"reenter": "the handler of the first message calls dataReceived with the following bytes",
                 "raise": "the handler of the first message raises once, the following bytes are delivered afterwards",
                 "pause-resume-now": "the handler of the first message calls pauseProducing() and at once resumeProducing()",
@@ -1132,5 +1134,9 @@ SILENT = [
            "        self._state = self._PARSING_LENGTH\n        self._checkForTrailingComma()\n        self._processPayload()\n"),
     Silent("netstring-callout-inlined", B, "        self._state = self._PARSING_LENGTH\n        self._processPayload()\n",
            "        self._state = self._PARSING_LENGTH\n        self.stringReceived(self._payload.getvalue()[:-1])\n"),
+    Silent("F16p-repaired-intn-resyncs-with-its-buffer-around-the-callout", B,
+           "            currentOffset = messageEnd\n            self._compatibilityOffset = currentOffset\n            self.stringReceived(packet)\n",
+           "            currentOffset = messageEnd\n            self._unprocessed = alldata[currentOffset:]\n            self._compatibilityOffset = 0\n"
+           "            self.stringReceived(packet)\n            alldata = self._unprocessed\n            currentOffset = 0\n"),
     Silent("netstring-buffer-append-spelled-out", B, "        self._remainingData += data\n        while self._remainingData:", "        self._remainingData = self._remainingData + data\n        while self._remainingData:"),
 ]
